@@ -615,6 +615,27 @@ impl Prop for Dynamic {
     fn max_shrink_iters(&self) -> u32 {
         200_000
     }
+    fn enumerated(&self, _tier: Tier) -> (Vec<DynCase>, String) {
+        if self.faults {
+            return (vec![], String::new());
+        }
+        // one long-lived solver object per incremental kind: two arguments and a query, then 1400 bursts that
+        // create and remove 48 arguments each (67 200 ids: beyond 16 bits), then a third argument, an attack
+        // from it and the same certificate query twice (the second one may be served from a cache)
+        let mut v = vec![];
+        for kind in [DynKind::Co, DynKind::St, DynKind::Pr, DynKind::CoAtt, DynKind::StAtt] {
+            let mut ops = vec![OpT::NewArg(0), OpT::NewArg(0), OpT::NewAtt(0, 65_535), OpT::Query { arg: 65_535, cred: true, cert: true }];
+            ops.extend(std::iter::repeat(OpT::Inflate(47)).take(1_400));
+            ops.push(OpT::NewArg(0));
+            ops.push(OpT::NewAtt(65_535, 0));
+            for _ in 0..2 {
+                ops.push(OpT::Query { arg: 65_535, cred: true, cert: true });
+                ops.push(OpT::Query { arg: 0, cred: false, cert: true });
+            }
+            v.push(DynCase { kind, factor: 1, ops, groups: 1 });
+        }
+        (v, "one history of 1400 create-and-remove bursts (67 200 argument ids on one solver object) per incremental solver kind".into())
+    }
     fn run(&self, case: &DynCase, rec: &mut Rec) -> CheckResult {
         let kind = case.kind;
         let factor = FACTORS[case.factor as usize % FACTORS.len()];
